@@ -239,7 +239,12 @@ def synthetic_graph(rng):
             # functions nested two deep; the innermost body starts from a value of the outermost function and uses the
             # parameters of both enclosing functions
             j, kk = py.Value(None), py.Value(None)
-            innermost = tracer.Graph([kk], py.operator("+", py.getitem(a, j), kk))
+            if rng.random() < 0.5:
+                innermost = tracer.Graph([kk], py.operator("+", py.getitem(a, j), kk))
+            else:
+                # the callee belongs to the enclosing function (a method of its element), one argument is module-level, one is the
+                # innermost parameter: the call belongs into the innermost function
+                innermost = tracer.Graph([kk], py.call(py.getattr(py.getitem(a, j), "clip"), [py.getattr(np_, "e"), kk]))
             mid = tracer.Graph([j], py.builtins.list(py.builtins.map(innermost, [10, 20])))
             nested = py.builtins.list(py.builtins.map(mid, [rng.randint(0, 3), rng.randint(0, 3)]))
             v = py.call(py.getattr(np_, "reshape"), [py.call(py.getattr(np_, "asarray"), [nested]), (4,)])
